@@ -210,6 +210,40 @@ def run(ctx, R):
                 fl = True
         return "float" if fl else "exact"
 
+    CMP_METHODS = {"cmp": {"cmp", "num_cmp", "partial_cmp", "num_partial_cmp"}, "eq": {"eq", "num_eq", "ne"}}
+
+    def bound_names(p):
+        return {n["name"] for n in walk(p) if n["k"] == "PBind"}
+
+    def locals_in(e):
+        return {res_name(n) for n in walk(e) if n["k"] == "Path" and "local" in (n.get("res") or {})}
+
+    def comparison_shape(arm, nm):
+        """The arm's value must be ONE comparison call whose receiver is computed from the left
+        operand's binding and whose argument from the right operand's binding (for cmp the sides
+        must not be swapped); wrappers unwrap_or/unwrap_or_else around a partial comparison are
+        transparent. Anything else (a constant ordering, a test of one operand only) is reported."""
+        leaf = [l for l in pat_leaves(arm["pat"]) if l["k"] == "PTuple"][0]
+        lb, rb = bound_names(leaf["pats"][0]), bound_names(leaf["pats"][1])
+        e = arm["body"]
+        while e["k"] == "Block" and not e["stmts"] and "expr" in e:
+            e = e["expr"]
+        while e["k"] == "MethodCall" and e["name"] in ("unwrap_or", "unwrap_or_else", "unwrap"):
+            e = e["recv"]
+        if e["k"] == "Binary" and e["op"] in ("Eq",) and nm == "eq":
+            rl, al = locals_in(e["a"]), locals_in(e["b"])
+        elif e["k"] == "MethodCall" and e["name"] in CMP_METHODS[nm]:
+            rl, al = locals_in(e["recv"]), set().union(*[locals_in(x) for x in e["args"]]) if e["args"] else set()
+        else:
+            return False, "arm value is a %s, not a comparison of the two operand values" % (e["k"] + (":" + e.get("name", "") if e["k"] == "MethodCall" else ""))
+        straight = bool(rl & lb) and bool(al & rb) and not (rl & rb) and not (al & lb)
+        swapped = bool(rl & rb) and bool(al & lb) and not (rl & lb) and not (al & rb)
+        if straight or (swapped and nm == "eq"):
+            return True, "compares %s with %s" % (sorted(rl & (lb | rb)), sorted(al & (lb | rb)))
+        if swapped:
+            return False, "operands are swapped: receiver built from the right operand %s, argument from the left %s" % (sorted(rl), sorted(al))
+        return False, "comparison does not use both operands: receiver uses %s, argument uses %s (left binds %s, right binds %s)" % (sorted(rl), sorted(al), sorted(lb), sorted(rb))
+
     ctab, cw = pair_table(cmpf)
     etab, ew = pair_table(eqf)
     R.ob("C04:Number::cmp:no-wildcard", cw == 0, "%d wildcard arms" % cw, F.where(cmpf))
@@ -223,6 +257,9 @@ def run(ctx, R):
                 ok = len(arms_) == 1
                 R.ob("C04:Number::%s:pair:%s-%s:explicit-arm" % (nm, a, b), ok, "%d arms" % len(arms_), F.where(fn))
                 if ok:
+                    shape, detail = comparison_shape(arms_[0], nm)
+                    R.ob("C04:Number::%s:pair:%s-%s:compares-both-values" % (nm, a, b), shape, detail,
+                         "%s:%s" % (F.items[fn]["file"], arms_[0]["ln"]))
                     fam = family(arms_[0])
                     R.ob("C04:Number::%s:pair:%s-%s:conversion" % (nm, a, b), fam == want_f,
                          "arm compares through %s values, statement prescribes %s" % (fam, want_f),
